@@ -2,6 +2,7 @@
 // Histories of construct / copy / move / assign / reset / swap / invoke (connect+start) over a few
 // wrapper variables, compared with a reference model and with the un-erased original (differential).
 #include "core.hpp"
+#include "quarantine.hpp"    // poisoning quarantine allocator: use-after-free oracle for the whole process
 
 #include <pika/execution.hpp>
 #include <pika/functional/function.hpp>
@@ -443,6 +444,7 @@ static Outcome run(tape_t const& tape)
 {
     Tape t(tape);
     Case c = decode(t);
+    vf::quarantine::enabled().store(true);
     bool nt_assign = false, nt_big = false, nt_small = false;
     std::string err;
     if (c.mode == 0)
@@ -465,6 +467,11 @@ static Outcome run(tape_t const& tape)
         out = Outcome::fail(o, err);
     }
     else if (g_live != 0) out = Outcome::fail("lifetime", std::to_string(g_live) + " erased objects were never destroyed (or destroyed twice) by the end of the history; " + std::to_string(g_constructed) + " constructed");
+    else
+    {
+        std::string qc = vf::quarantine::check();
+        if (!qc.empty()) out = Outcome::fail("write_after_free", qc);
+    }
     out.nontrivial = nt_assign && nt_big && nt_small;
     out.tags.push_back(c.mode == 0 ? "wrappers:function" : "wrappers:any_sender");
     out.counters["steps"] = static_cast<long long>(c.steps.size());
